@@ -60,14 +60,14 @@ PROPS = {
     "C08": {"units": ["ACT", "BLD", "RELAY", "CLN", "CFG"], "level": "proof", "assume": ACTORS,
             "not_covered": ["not covered: 'at least once' is C04's liveness"]},
     "C09": {"units": ["CFG", "CLN"], "level": "proof", "assume": CFGA,
-            "not_covered": ["not covered: YAML -> yaml::Project (A-yaml); reference parsing inside transform_target (bounded Kani harness of C19); termination of the import loader add_project (depends on the file system being finite; A-yaml); soundness ('every key is reachable from a root') not proved"]},
+            "not_covered": ["not covered: YAML -> yaml::Project (A-yaml); str::split behind reference parsing (DOM unit, three assumed facts); termination of the import loader add_project (depends on the file system being finite; A-yaml)"]},
     "C10": {"units": ["BLD", "ACT", "RELAY", "CLN"], "level": "proof", "assume": ACTORS,
             "not_covered": ["not covered: any latency bound; grandchildren of the shell; the hand-off from the signal handler task"]},
     "C11": {"units": ["ACT", "RELAY"], "level": "proof", "assume": ACTORS},
     "C12": {"units": ["CLN", "INC"], "level": "proof", "assume": ["A-hash", "A-std", "A-fs", "A-clap", "R1"],
             "not_covered": ["not covered: what remove_dir_all and the directory walk do with symbolic links (A-fs); clap argument parsing"]},
     "C13": {"units": ["CFG", "INC"], "level": "proof", "assume": CFGA + ["A-fs", "A-codec", "A-cmd"],
-            "not_covered": ["not covered: project_dir.join(path) inside transform_input/_output (iterator closures; assumed by transform_target's contract)"]},
+            "not_covered": ["not covered: Path::join itself (an uninterpreted function of directory and relative text); the regex that recognises X.output entries (A-yaml)"]},
     "C14": {"units": ["CFG", "CLN"], "level": "proof", "assume": CFGA,
             "not_covered": ["not applicable within C14: totality and strictness of parsing (serde_yaml, derive attributes, regexes) - third-party parser code with no contract within reach; only the uniqueness / import-name / injectivity half is proved"]},
     "C15": {"units": ["FS", "INC", "CLN", "WCH"], "level": "proof", "assume": ["A-std", "A-hash", "A-fs", "A-walkdir", "A-str", "A-adapters", "R1"],
